@@ -349,6 +349,221 @@ theorem snapLimitsFields_of_exportable (D : Consts F) :
     simp [snapLimitsFields, snapLimits_of_exportable D t hwf.1 hex.1, snapLimitsFields_of_exportable D ts hwf.2 hex.2]
 end
 
+/-! ### behaviour: `validate` sees a scaled limit only through its grid value
+
+`ScaledInteger.validate` (repaired: the clamping band is measured from `low`, `high`) reads `self.min` / `self.max`
+only as `self(self.min)` / `self(self.max)`.  So a tree and the tree with its scaled limits moved to the grid
+validate, convert and import EVERY value alike - the round trip through the description changes no behaviour. -/
+
+theorem scaledCall_of_snap {s x y : F} (hc : addZero x = x) (h : DType.snap s x = some y) (hf : isFinite y = true) :
+    scaledCall s (.float x) = .ok y := by
+  obtain ⟨k, yy, hk, hy, hm⟩ := snap_iff h
+  unfold scaledCall
+  simp only [PVal.toFloat?, hc, hk, hy, hm, hf, if_true]
+
+/-- two pairs of limits with the same grid values give the same `validate` -/
+theorem scaledValidate_limits_congr {s mn mx mn' mx' : F}
+    (h1 : scaledCall s (.float mn') = scaledCall s (.float mn))
+    (h2 : scaledCall s (.float mx') = scaledCall s (.float mx)) (v : PVal F) :
+    scaledValidate s mn' mx' v = scaledValidate s mn mx v := by
+  unfold scaledValidate
+  rw [h1, h2]
+
+theorem scaledValidate_snapped (hG : GridStable F) {s mn mx mn' mx' : F} (hs : isFinite s = true)
+    (hp : DType.positive s = true) (cmn : addZero mn = mn) (cmx : addZero mx = mx)
+    (h1 : DType.snap s mn = some mn') (h2 : DType.snap s mx = some mx')
+    (f1 : isFinite mn' = true) (f2 : isFinite mx' = true) (v : PVal F) :
+    scaledValidate s mn' mx' v = scaledValidate s mn mx v := by
+  obtain ⟨a1, _, c1⟩ := snapped_limit hG hs hp h1 f1
+  obtain ⟨a2, _, c2⟩ := snapped_limit hG hs hp h2 f2
+  apply scaledValidate_limits_congr
+  · rw [scaledCall_of_snap c1 a1 f1, scaledCall_of_snap cmn h1 f1]
+  · rw [scaledCall_of_snap c2 a2 f2, scaledCall_of_snap cmx h2 f2]
+
+theorem snapLimitsList_length : ∀ (es es' : List (DInfo F)), snapLimitsList es = some es' → es'.length = es.length
+  | [], es', h => by simp only [snapLimitsList] at h; injection h with h; subst h; rfl
+  | t :: ts, es', h => by
+    simp only [snapLimitsList] at h
+    split at h
+    · rename_i t' ts' h1 h2
+      injection h with h; subst h
+      simp only [List.length_cons, snapLimitsList_length ts ts' h2]
+    · cases h
+
+theorem snapLimitsFields_names : ∀ (ms ms' : List (String × DInfo F)), snapLimitsFields ms = some ms' →
+    ms'.map (·.1) = ms.map (·.1)
+  | [], ms', h => by simp only [snapLimitsFields] at h; injection h with h; subst h; rfl
+  | (k, t) :: ts, ms', h => by
+    simp only [snapLimitsFields] at h
+    split at h
+    · rename_i t' ts' h1 h2
+      injection h with h; subst h
+      simp only [List.map_cons, snapLimitsFields_names ts ts' h2]
+    · cases h
+
+mutual
+/-- `__call__` (mode `call`) and `validate` of the tree with snapped limits are those of the tree itself -/
+theorem conv_snapLimits (hG : GridStable F) (D : Consts F) (m : Mode) :
+    ∀ (dt dt' : DInfo F), dt.WF D → snapLimits dt = some dt' → ∀ (v : PVal F) (prev : Option (PVal F)),
+      conv m dt'.erase v prev = conv m dt.erase v prev
+  | .scaled s mn mx ar rr u f, dt', hwf, h, v, prev => by
+    simp only [snapLimits] at h
+    split at h
+    · rename_i mn' mx' h1 h2
+      split at h
+      · rename_i hf
+        injection h with h; subst h
+        simp only [Bool.and_eq_true] at hf
+        simp only [DInfo.WF, DType.WF] at hwf
+        obtain ⟨⟨fs, ps, _, _, _, cmn, cmx, _⟩, _⟩ := hwf
+        cases m
+        · simp only [erase, conv]
+        · simp only [erase, conv, scaledValidate_snapped hG fs ps cmn cmx h1 h2 hf.1 hf.2]
+      · cases h
+    · cases h
+  | .array e a b, dt', hwf, h, v, prev => by
+    simp only [snapLimits] at h
+    split at h
+    · rename_i e' he
+      injection h with h; subst h
+      simp only [DInfo.WF] at hwf
+      have hc : conv m e'.erase = conv m e.erase := by
+        funext v p; exact conv_snapLimits hG D m e e' hwf.1 he v p
+      simp only [erase, conv, hc]
+    · cases h
+  | .tuple es, dt', hwf, h, v, prev => by
+    simp only [snapLimits] at h
+    split at h
+    · rename_i es' he
+      injection h with h; subst h
+      simp only [DInfo.WF] at hwf
+      have hc : convTuple m (eraseList es') = convTuple m (eraseList es) := by
+        funext vs ps; exact convTuple_snapLimits hG D m es es' hwf.2 he vs ps
+      simp only [erase, conv, hc, eraseList_length, snapLimitsList_length es es' he]
+    · cases h
+  | .struct ms opt c, dt', hwf, h, v, prev => by
+    simp only [snapLimits] at h
+    split at h
+    · rename_i ms' he
+      injection h with h; subst h
+      simp only [DInfo.WF] at hwf
+      have hc : convMember m (eraseFields ms') = convMember m (eraseFields ms) := by
+        funext k v; exact convMember_snapLimits hG D m ms ms' hwf.2.2.2 he k v
+      simp only [erase, conv, hc, eraseFields_names, snapLimitsFields_names ms ms' he]
+    · cases h
+  | .double .., dt', hwf, h, v, prev => by simp only [snapLimits] at h; injection h with h; subst h; rfl
+  | .int .., dt', hwf, h, v, prev => by simp only [snapLimits] at h; injection h with h; subst h; rfl
+  | .bool, dt', hwf, h, v, prev => by simp only [snapLimits] at h; injection h with h; subst h; rfl
+  | .enum .., dt', hwf, h, v, prev => by simp only [snapLimits] at h; injection h with h; subst h; rfl
+  | .string .., dt', hwf, h, v, prev => by simp only [snapLimits] at h; injection h with h; subst h; rfl
+  | .blob .., dt', hwf, h, v, prev => by simp only [snapLimits] at h; injection h with h; subst h; rfl
+theorem convTuple_snapLimits (hG : GridStable F) (D : Consts F) (m : Mode) :
+    ∀ (es es' : List (DInfo F)), WFList D es → snapLimitsList es = some es' →
+      ∀ (vs : List (PVal F)) (ps : Option (List (PVal F))),
+        convTuple m (eraseList es') vs ps = convTuple m (eraseList es) vs ps
+  | [], es', _, h, vs, ps => by simp only [snapLimitsList] at h; injection h with h; subst h; rfl
+  | t :: ts, es', hwf, h, vs, ps => by
+    simp only [snapLimitsList] at h
+    split at h
+    · rename_i t' ts' h1 h2
+      injection h with h; subst h
+      simp only [DInfo.WFList] at hwf
+      have c1 := conv_snapLimits hG D m t t' hwf.1 h1
+      have c2 := convTuple_snapLimits hG D m ts ts' hwf.2 h2
+      cases vs with
+      | nil => simp only [eraseList, convTuple]
+      | cons v vs =>
+        cases ps with
+        | none => simp only [eraseList, convTuple, c1, c2]
+        | some ps =>
+          cases ps with
+          | nil => simp only [eraseList, convTuple]
+          | cons p ps => simp only [eraseList, convTuple, c1, c2]
+    · cases h
+theorem convMember_snapLimits (hG : GridStable F) (D : Consts F) (m : Mode) :
+    ∀ (ms ms' : List (String × DInfo F)), WFFields D ms → snapLimitsFields ms = some ms' →
+      ∀ (k : String) (v : PVal F), convMember m (eraseFields ms') k v = convMember m (eraseFields ms) k v
+  | [], ms', _, h, k, v => by simp only [snapLimitsFields] at h; injection h with h; subst h; rfl
+  | (k0, t) :: ts, ms', hwf, h, k, v => by
+    simp only [snapLimitsFields] at h
+    split at h
+    · rename_i t' ts' h1 h2
+      injection h with h; subst h
+      simp only [DInfo.WFFields] at hwf
+      simp only [eraseFields, convMember, conv_snapLimits hG D m t t' hwf.1 h1,
+        convMember_snapLimits hG D m ts ts' hwf.2 h2]
+    · cases h
+end
+
+mutual
+/-- `import_value` does not look at the limits at all -/
+theorem import_snapLimits : ∀ (dt dt' : DInfo F), snapLimits dt = some dt' → ∀ j : JVal F,
+    importValue dt'.erase j = importValue dt.erase j
+  | .scaled s mn mx ar rr u f, dt', h, j => by
+    simp only [snapLimits] at h
+    split at h
+    · split at h
+      · injection h with h; subst h; simp only [erase, importValue]
+      · cases h
+    · cases h
+  | .array e a b, dt', h, j => by
+    simp only [snapLimits] at h
+    split at h
+    · rename_i e' he
+      injection h with h; subst h
+      have hc : importValue e'.erase = importValue e.erase := by
+        funext j; exact import_snapLimits e e' he j
+      simp only [erase, importValue, hc]
+    · cases h
+  | .tuple es, dt', h, j => by
+    simp only [snapLimits] at h
+    split at h
+    · rename_i es' he
+      injection h with h; subst h
+      have hc : importTuple (eraseList es') = importTuple (eraseList es) := by
+        funext js; exact importTuple_snapLimits es es' he js
+      simp only [erase, importValue, hc, eraseList_length, snapLimitsList_length es es' he]
+    · cases h
+  | .struct ms opt c, dt', h, j => by
+    simp only [snapLimits] at h
+    split at h
+    · rename_i ms' he
+      injection h with h; subst h
+      have hc : importMember (eraseFields ms') = importMember (eraseFields ms) := by
+        funext k j; exact importMember_snapLimits ms ms' he k j
+      simp only [erase, importValue, hc, eraseFields_names, snapLimitsFields_names ms ms' he]
+    · cases h
+  | .double .., dt', h, j => by simp only [snapLimits] at h; injection h with h; subst h; rfl
+  | .int .., dt', h, j => by simp only [snapLimits] at h; injection h with h; subst h; rfl
+  | .bool, dt', h, j => by simp only [snapLimits] at h; injection h with h; subst h; rfl
+  | .enum .., dt', h, j => by simp only [snapLimits] at h; injection h with h; subst h; rfl
+  | .string .., dt', h, j => by simp only [snapLimits] at h; injection h with h; subst h; rfl
+  | .blob .., dt', h, j => by simp only [snapLimits] at h; injection h with h; subst h; rfl
+theorem importTuple_snapLimits : ∀ (es es' : List (DInfo F)), snapLimitsList es = some es' → ∀ js : List (JVal F),
+    importTuple (eraseList es') js = importTuple (eraseList es) js
+  | [], es', h, js => by simp only [snapLimitsList] at h; injection h with h; subst h; rfl
+  | t :: ts, es', h, js => by
+    simp only [snapLimitsList] at h
+    split at h
+    · rename_i t' ts' h1 h2
+      injection h with h; subst h
+      cases js with
+      | nil => simp only [eraseList, importTuple]
+      | cons j js =>
+        simp only [eraseList, importTuple, import_snapLimits t t' h1 j, importTuple_snapLimits ts ts' h2 js]
+    · cases h
+theorem importMember_snapLimits : ∀ (ms ms' : List (String × DInfo F)), snapLimitsFields ms = some ms' →
+    ∀ (k : String) (j : JVal F), importMember (eraseFields ms') k j = importMember (eraseFields ms) k j
+  | [], ms', h, k, j => by simp only [snapLimitsFields] at h; injection h with h; subst h; rfl
+  | (k0, t) :: ts, ms', h, k, j => by
+    simp only [snapLimitsFields] at h
+    split at h
+    · rename_i t' ts' h1 h2
+      injection h with h; subst h
+      simp only [eraseFields, importMember, import_snapLimits t t' h1 j, importMember_snapLimits ts ts' h2 k j]
+    · cases h
+end
+
 /-! ### the exact carrier -/
 
 theorem rat_gridStable : GridStable Rat := by
